@@ -60,8 +60,11 @@ class ListBuilder(Periodic):
                                 local_set.add(bytes.fromhex(pubkey))
                                 pubkey_count += 1
                     event_count += 1
-                global_set.clear()
+                # validators read these sets from executor threads while this task runs:
+                # add the new keys, then drop the stale ones, so that an enforced list is
+                # never seen empty (an empty list means "not enforced")
                 global_set.update(local_set)
+                global_set.intersection_update(local_set)
                 self.log.info(
                     "Loaded %s list with %d pubkeys from %d events",
                     list_kind,
